@@ -89,6 +89,13 @@ class Ctx:
     def floor(self, rule, n, why=""):
         self.floors[rule] = (n, why)
 
+    def broken(self, msg):
+        """one rule could not be evaluated; the other rules still run. Reported as 'analysis broken' (exit 2) at the end -
+        unless another rule reports a violation, which is a verdict (exit 1)."""
+        if not hasattr(self, "deferred_broken"):
+            self.deferred_broken = []
+        self.deferred_broken.append(msg)
+
     def count(self, what, n=1):
         self.stats[what] = self.stats.get(what, 0) + n
 
@@ -132,7 +139,7 @@ def finish(ctx, meta):
     prop = ctx.prop
     known = [k for k in load_known() if k.get("property") == prop]
     known_active = {k["key"]: k for k in known if k.get("status") == "known"}
-    broken = []
+    broken = list(getattr(ctx, "deferred_broken", []))
     per_rule = {}
     for key in ctx.order:
         r = ctx.obligations[key]
